@@ -139,3 +139,24 @@ CHECKS["C08"] = (
     "Trusted: DTensor.from_local construction as a stand-in for fully_shard's parameters; threaded process group.",
     "DESIGN.md 3 C08",
 )
+
+# Input classes / monitors added after the mutation rounds (appended to the level text by gen_manifest.py)
+ADDENDA = {
+    "C01": "Also: per-group overrides of grafting / preconditioner config / root override / blocking / preconditioner dtype; steps taken with step(closure) (gradients exist only after the closure ran); histories that continue on a freshly constructed optimizer which loaded the distributed state dict mid-run; 40-90 step histories.",
+    "C02": "Also: two-group twins in which the first group has no gradient on some steps; a vanishing Shampoo direction for a non-zero gradient is judged (it must still move the block by the grafted norm).",
+    "C03": "Also: stopping-rule monitor for the QR method (the stored basis must equal the iterate at an iteration where 'relative change <= tolerance or budget exhausted' allows stopping; float64, noise-probe and working-dtype replays widen the admissible set); histories that continue on a checkpoint-restored optimizer.",
+    "C05": "Also: for SOAP a mismatch is excused only when both twins hold the same factor matrices but different (equally valid) eigenbases.",
+    "C06": "Also: several param groups per optimizer, bfloat16 and mixed bfloat16/float32 parameter groups, exact opmath rounding model for mixed dtypes, one fixed case for the listed known finding.",
+    "C07": "Also: mixed bfloat16/float32 parameter groups (forced in every 10th case), communication-dtype quantisation fingerprint of the applied update / parameter, thorough tier: real torch FSDP/HSDP wrapping on gloo processes (metadata compiled by the repo from the real flat parameters).",
+    "C08": "Also: mixed-dtype groups and the communication-dtype fingerprint as in C07; thorough tier: parameters produced by the real fully_shard (FSDP2) on gloo processes.",
+    "C09": "Also: negative loads per key, per sub-tree and into differently grouped optimizers; DDP (DTensor) state on simulated ranks.",
+    "C10": "Also: epsilon dominating A, the zero matrix, structured inputs (unflagged diagonal, permuted / block diagonal, c*I), a non-default exponent multiplier in the config for the fast-vs-general comparison.",
+    "C11": "Also: roots below 1, rejection cases with both values of is_diagonal, structured inputs.",
+    "C12": "Also: stopping-rule monitor as in C03, estimates with exact zeros (identity / permutation / block-orthogonal), zero rows, forced fixed-point instances, NaN-safe comparisons.",
+    "C13": "Also: injected failures of any Exception type (plain Exception subclass, MemoryError, AssertionError, KeyError), per-group tolerance overrides, float16 storage overflow poison mode.",
+    "C14": "Also: sizes around 2^31 / 2^40 in the direct family; live family: the rank holding a block's state must be the rank whose gather-buffer segment holds the block's view, and the live owners must be an LPT-consistent assignment of the aligned sizes.",
+    "C15": "Also: strided (non-contiguous) shards and 0-D shards.",
+    "C16": "Also: DAG-shaped object graphs with shared containers / tensors, store_non_tensors on and off.",
+    "C17": "Also: neighbours of the beta3 sentinel (nextafter(-1, +-inf)) and denormal epsilon values.",
+    "C18": "Also: gradient tensors reused across steps, gradients compared after the step, groups holding only 2-D blocks, state-aliasing configuration class in every 5th case.",
+}
